@@ -15,7 +15,13 @@ import (
 type T0 struct{ K int }
 type T1 struct{ K int }
 type T2 struct{ K int }
-type T3 struct{ K int }
+// T3 is only ever used through *T3. Aux is scratch space that function bodies
+// update (under the program's own lock) in the object they were handed: a
+// shared mutable value, as real programs pass registries and loggers around.
+type T3 struct {
+	K   int
+	Aux int
+}
 
 // t4 and t5 have lower-case type names on purpose: their reflect String()
 // ("engine.t4") can then occur inside (lower-cased) value names, which is what
